@@ -1,6 +1,24 @@
 //! C05, runtime types created in the plugin and used here (scripts; the object behaviours and the
 //! CVec behaviours are replayed by objad / vecad with --plugin).
 use cglue::arc::{CArc, CArcSome};
+use cglue::boxed::{CBox, CSliceBox};
+use cglue::callback::OpaqueCallback;
+use cglue::iter::CIterator;
+use cglue::repr_cstring::ReprCString;
+use cglue::slice::CSliceRef;
+use cglue::vec::CVec;
+
+fn xp_text(i: usize) -> String {
+    format!("s{}-\u{e9}\u{20ac}-{}", i, "x".repeat(i % 5))
+}
+fn fold(v: &[u64]) -> u64 {
+    v.iter().fold(0u64, |a, b| a.wrapping_mul(31).wrapping_add(*b))
+}
+/// called by the plugin with an iterator and a callback it created: drain one into the other
+extern "C" fn host_user(it: CIterator<u64>, mut cb: OpaqueCallback<u64>) -> u64 {
+    use cglue::callback::FeedCallback;
+    it.feed_into_mut(&mut cb) as u64
+}
 use cglue::trait_group::{c_void, Opaquable};
 use vkit::{json, ledger, Value};
 
@@ -48,6 +66,94 @@ pub fn main(args: &[String]) {
                 check!("arc: plugin memory released by the plugin", live() == l0 && anoms() == a0, "plugin live {} -> {}, anomalies {} -> {}", l0, live(), a0, anoms());
                 check!("arc: host allocator untouched", h1.live == h0.live && h1.anomalies == h0.anomalies, "host live {} -> {}, anomalies {:?}", h0.live, h1.live, ledger::anomalies_since(h0.anomalies));
             }
+        }
+        // ---- values whose elements own memory of the creating module ----
+        let vec_str: libloading::Symbol<unsafe extern "C" fn(usize) -> CVec<ReprCString>> = lib.get(b"xp_vec_str").unwrap();
+        let vec_str_consume: libloading::Symbol<unsafe extern "C" fn(CVec<ReprCString>) -> u64> = lib.get(b"xp_vec_str_consume").unwrap();
+        let box_str: libloading::Symbol<unsafe extern "C" fn(usize) -> CBox<'static, ReprCString>> = lib.get(b"xp_box_str").unwrap();
+        let box_str_consume: libloading::Symbol<unsafe extern "C" fn(CBox<'static, ReprCString>) -> u64> = lib.get(b"xp_box_str_consume").unwrap();
+        let slicebox: libloading::Symbol<unsafe extern "C" fn(usize) -> CSliceBox<'static, ReprCString>> = lib.get(b"xp_slicebox").unwrap();
+        let slice_static: libloading::Symbol<unsafe extern "C" fn() -> CSliceRef<'static, u8>> = lib.get(b"xp_slice_static").unwrap();
+        let feed: libloading::Symbol<unsafe extern "C" fn(u64, u64, OpaqueCallback<u64>) -> usize> = lib.get(b"xp_feed").unwrap();
+        let sum_iter: libloading::Symbol<unsafe extern "C" fn(CIterator<u64>) -> u64> = lib.get(b"xp_sum_iter").unwrap();
+        let lend: libloading::Symbol<unsafe extern "C" fn(u64, usize, extern "C" fn(CIterator<u64>, OpaqueCallback<u64>) -> u64, &mut u64) -> u64> = lib.get(b"xp_lend").unwrap();
+        macro_rules! balanced { ($what:expr, $l0:expr, $a0:expr, $h0:expr) => {{
+            let h1 = ledger::snap();
+            check!(concat!($what, ": the creating module's memory is released by the creating module"), live() == $l0 && anoms() == $a0 && h1.live == $h0.live && h1.anomalies == $h0.anomalies,
+                   "plugin live {} -> {}, plugin anomalies {} -> {}, host live {} -> {}, host anomalies {:?}", $l0, live(), $a0, anoms(), $h0.live, h1.live, ledger::anomalies_since($h0.anomalies));
+        }}; }
+        for nn in [0usize, 1, 3, 8] {
+            // plugin-made vector of strings: read, cloned... and destroyed here
+            let (l0, a0, h0) = (live(), anoms(), ledger::snap());
+            let v = ledger::track(|| vec_str(nn));
+            let ok = v.len() == nn && v.iter().enumerate().all(|(i, s)| { let t: &str = s.as_ref(); t == xp_text(i) });
+            check!("plugin-made CVec<ReprCString> read in the host", ok, "n={} len={}", nn, v.len());
+            ledger::track(|| drop(v));
+            balanced!("CVec<ReprCString> made by the plugin, dropped by the host", l0, a0, h0);
+            // part of it popped first (the popped strings go back to their creator inside a vector again)
+            let (l0, a0, h0) = (live(), anoms(), ledger::snap());
+            let mut v = ledger::track(|| vec_str(nn));
+            let mut back: Vec<ReprCString> = vec![];
+            if nn > 1 { if let Some(s) = ledger::track(|| v.pop()) { back.push(s) } }
+            let remaining = v.len();
+            ledger::track(|| drop(v));
+            let popped = back.len();
+            // a popped element has no release function: hand it to its creator in the only way the API offers
+            for s in back { std::mem::forget(s) }
+            let h1 = ledger::snap();
+            check!("CVec<ReprCString> after pop, dropped by the host", anoms() == a0 && live() == l0 + popped && h1.live == h0.live && h1.anomalies == h0.anomalies,
+                   "n={} remaining={} plugin live {} -> {} (popped {}), anomalies {} -> {}, host {:?}", nn, remaining, l0, live(), popped, a0, anoms(), ledger::anomalies_since(h0.anomalies));
+            // host-made vector: read and destroyed by the plugin
+            let (l0, a0, h0) = (live(), anoms(), ledger::snap());
+            let hv: CVec<ReprCString> = ledger::track(|| CVec::from((0..nn).map(|i| ReprCString::from(xp_text(i))).collect::<Vec<_>>()));
+            let want: u64 = (0..nn).map(|i| xp_text(i).len() as u64 * 1000 + 1).sum();
+            let got = ledger::track(|| vec_str_consume(hv));
+            check!("host-made CVec<ReprCString> read in the plugin", got == want, "n={} digest {} expected {}", nn, got, want);
+            balanced!("CVec<ReprCString> made by the host, dropped by the plugin", l0, a0, h0);
+            // boxed slice of strings made by the plugin
+            let (l0, a0, h0) = (live(), anoms(), ledger::snap());
+            let sb = ledger::track(|| slicebox(nn));
+            let ok = sb.len() == nn && sb.iter().enumerate().all(|(i, s)| { let t: &str = s.as_ref(); t == xp_text(i) });
+            check!("plugin-made CSliceBox<ReprCString> read in the host", ok, "n={}", nn);
+            ledger::track(|| drop(sb));
+            balanced!("CSliceBox<ReprCString> made by the plugin, dropped by the host", l0, a0, h0);
+            // boxes, both directions
+            let (l0, a0, h0) = (live(), anoms(), ledger::snap());
+            let b = ledger::track(|| box_str(nn));
+            let t: &str = (*b).as_ref();
+            check!("plugin-made CBox<ReprCString> read in the host", t == xp_text(nn), "{:?}", t);
+            ledger::track(|| drop(b));
+            let hb = ledger::track(|| CBox::from(ReprCString::from(xp_text(nn + 1))));
+            let r = ledger::track(|| box_str_consume(hb));
+            check!("host-made CBox<ReprCString> read in the plugin", r == xp_text(nn + 1).len() as u64, "{}", r);
+            balanced!("CBox<ReprCString> in both directions", l0, a0, h0);
+        }
+        {
+            let s = slice_static();
+            check!("plugin-made CSliceRef read in the host", s.as_slice() == &[9u8, 8, 7, 6, 5], "{:?}", s.as_slice());
+        }
+        for (nn, stop) in [(0u64, 0usize), (5, 0), (5, 2), (40, 0), (40, 17)] {
+            // host callback, plugin iterator
+            let (l0, a0, h0) = (live(), anoms(), ledger::snap());
+            let mut got: Vec<u64> = vec![];
+            let fed = {
+                let mut f = |x: u64| { got.push(x); !(stop > 0 && got.len() >= stop) };
+                feed(nn, 7, (&mut f).into())
+            };
+            let want: Vec<u64> = (0..nn).map(|i| i * 7 + 1).take(if stop > 0 { stop } else { usize::MAX }).collect();
+            check!("host callback fed by the plugin", got == want && fed == want.len(), "n={} stop={} got {:?} fed {}", nn, stop, got, fed);
+            // host iterator, plugin consumer
+            let items: Vec<u64> = (0..nn).map(|i| i * i + 3).collect();
+            let mut it = items.iter().copied();
+            let s = sum_iter((&mut it).into());
+            check!("host iterator drained by the plugin", s == fold(&items) && it.next().is_none(), "n={} {} vs {}", nn, s, fold(&items));
+            // plugin iterator and plugin callback, connected by a host function
+            let mut seen = 0u64;
+            let r = lend(nn, stop, host_user, &mut seen);
+            let want: Vec<u64> = (0..nn).map(|i| i * 3 + 2).take(if stop > 0 { stop } else { usize::MAX }).collect();
+            check!("plugin iterator drained into a plugin callback by the host", r == want.len() as u64 && seen == fold(&want) + want.len() as u64 * 1_000_000,
+                   "n={} stop={} fed {} digest {}", nn, stop, r, seen);
+            balanced!("callbacks and iterators across modules", l0, a0, h0);
         }
     }
     vkit::summary("xmod-misc", n, n, &fails, json!({}));
